@@ -202,9 +202,43 @@ def find_loader(flow: Flow):
     return entry or emitters
 
 
-def K1_loader(rep, flow: Flow, T, tier, exact=True):
-    rep.rule("K1", ("the loader turns each documented token into exactly one gate of that class on exactly the written qubits" if exact else
-                    "the loader appends nothing but the token's own gate, on exactly the written qubits (it may drop a token)") +
+def _k1_view(mode, gates):
+    """what a property needs of a gate list.  exact: the gates themselves (operand order of the symmetric cz / swap is
+    immaterial); cost (C04): the sequence of two-qubit gates as (native cost, unordered pair); pairs (C02): the unordered
+    pairs of the two-qubit gates"""
+    if not isinstance(gates, list):
+        return gates
+    out = []
+    for g in gates:
+        nm, qs = g[0], tuple(g[1:])
+        if mode in ("exact", "subset"):
+            out.append((nm,) + (tuple(sorted(qs)) if nm in ("cz", "swap") else qs))
+        elif len(qs) >= 2:
+            out.append(((3 if nm == "swap" else 1), tuple(sorted(qs))) if mode == "cost" else tuple(sorted(qs)))
+    return out
+
+
+def _k1_agree(mode, got, want):
+    g, w = _k1_view(mode, got), _k1_view(mode, want)
+    if not isinstance(g, list):
+        return False
+    if mode in ("pairs", "subset"):
+        it = iter(w)
+        return all(any(x == y for y in it) for x in g)      # nothing invented, altered or moved; a token may be dropped
+    return g == w
+
+
+K1_TEXT = {
+    "exact": "the loader turns each documented token into exactly one gate of that name on exactly the written qubits (operand order of the symmetric cz / swap aside)",
+    "cost": "the loader turns each two-qubit token into exactly one two-qubit gate of the same native cost (swap = 3, cx / cz = 1) on the written pair, in token order, and a one-qubit token into no two-qubit gate",
+    "pairs": "every two-qubit gate the loader appends acts on the pair written in a two-qubit token of the line, in token order (it may drop a token, it must not invent or move a two-qubit gate)",
+    "subset": "every gate the loader appends is the gate a token of the line names, on the written qubits, in token order (it may leave a token out - e.g. one that acts trivially on |0..0> - but never alters, invents or moves a gate)",
+}
+
+
+def K1_loader(rep, flow: Flow, T, tier, exact=True, mode=None, api=("stabilizer_circuits.get_readout_circuit", "mub_circuits.get_mub_circuits")):
+    mode = mode or ("exact" if exact else "pairs")
+    rep.rule("K1", K1_TEXT[mode] +
              " (all distinct tokens of the shipped tables + whole sample lines, evaluated on the loader's syntax tree with a gate recorder, under every calling convention the API uses)", floor=50, exhaustive=True)
     loaders = find_loader(flow)
     if len(loaders) != 1:
@@ -214,7 +248,7 @@ def K1_loader(rep, flow: Flow, T, tier, exact=True):
     ce = consteval.CE(flow.prog, max_steps=20_000_000)
     # the loader is evaluated as the API calls it: constant extra arguments of those calls are passed along
     conventions = {}
-    for fq in ("stabilizer_circuits.get_readout_circuit", "mub_circuits.get_mub_circuits"):
+    for fq in api:
         for r in flow.paths(fq):
             for ev in r.events:
                 if ev[0] == "call" and ev[1] == lfq:
@@ -240,23 +274,18 @@ def K1_loader(rep, flow: Flow, T, tier, exact=True):
             if a != b:
                 for nm in ("cx", "cz", "swap"):
                     tokens.setdefault(f"{nm}{a},{b}", (nm, (a, b)))
+    what = {"exact": "the documented meaning is", "subset": "the only gate it may append is", "cost": "the documented two-qubit content (native cost, pair) is that of", "pairs": "the only coupled pair it may touch is that of"}[mode]
     for tok, (nm, qs) in sorted(tokens.items()):
         o = _run_loader(ce, lfq, 6, tok)
         want = [(nm,) + tuple(qs)]
-        if not exact:
-            # connectivity only needs: nothing but the token's gate is appended (dropping it is harmless here)
-            cands = o["convention-dependent"] if isinstance(o, dict) else [o]
-            if all(c == [] or c == want or (isinstance(c, list) and len(c) == 1 and c[0][0] == nm and set(c[0][1:]) == set(qs)) for c in cands):
-                rep.ok("K1", 1, nontrivial=tok, sample=f"'{tok}' -> {cands[0]}")
-                continue
-        if o != want:
-            # operand order of cx matters for the state only; arity / qubit set / class for C02, C04
-            if isinstance(o, list) and len(o) == 1 and o[0][0] == nm and set(o[0][1:]) == set(qs) and nm in ("cz", "swap"):
-                rep.ok("K1", 1, nontrivial=tok)
-                continue
-            rep.finding("K1", f"token:{tok}", f"loader {lfq} turns token '{tok}' into {o}, the documented meaning is {want}")
+        cands = o["convention-dependent"] if isinstance(o, dict) else [o]
+        if isinstance(o, dict) and mode == "exact":
+            rep.finding("K1", f"token:{tok}", f"loader {lfq} turns token '{tok}' into different gate lists under the calling conventions the API uses: {o['convention-dependent']}")
+        elif all(_k1_agree(mode, c, want) for c in cands):
+            rep.ok("K1", 1, nontrivial=tok, sample=f"'{tok}' -> {cands[0]}")
         else:
-            rep.ok("K1", 1, nontrivial=tok, sample=f"'{tok}' -> {o}")
+            bad = next(c for c in cands if not _k1_agree(mode, c, want))
+            rep.finding("K1", f"token:{tok}", f"loader {lfq} turns token '{tok}' into {bad}, {what} {want}")
     # whole lines: every token once, in order, nothing else (also blank tokens / trailing space)
     samples = []
     for f in T.files:
@@ -268,18 +297,14 @@ def K1_loader(rep, flow: Flow, T, tier, exact=True):
         text = L.raw.split(":")[-1]
         o = _run_loader(ce, lfq, f.n, text)
         want = [(op.name,) + tuple(op.qubits) for op in L.ops]
-        if not exact:
-            cands = o["convention-dependent"] if isinstance(o, dict) else [o]
-            def subseq(a, b):
-                it = iter(b)
-                return isinstance(a, list) and all(any(x == y for y in it) for x in a)
-            if all(subseq(c, want) for c in cands):
-                rep.ok("K1", 1, nontrivial=(f.name, L.index))
-                continue
-        if o != want:
-            rep.finding("K1", f"line:{f.name}:{L.index}", f"loader output for {L.where()} differs from the token sequence of the line: {str(o)[:200]}")
-        else:
+        cands = o["convention-dependent"] if isinstance(o, dict) else [o]
+        if isinstance(o, dict) and mode == "exact":
+            rep.finding("K1", f"line:{f.name}:{L.index}", f"loader output for {L.where()} depends on the calling convention: {str(o)[:200]}")
+        elif all(_k1_agree(mode, c, want) for c in cands):
             rep.ok("K1", 1, nontrivial=(f.name, L.index), sample=f"{L.where()}: {len(want)} gates in token order")
+        else:
+            bad = next(c for c in cands if not _k1_agree(mode, c, want))
+            rep.finding("K1", f"line:{f.name}:{L.index}", f"loader output for {L.where()} differs from the token sequence of the line ({K1_TEXT[mode][:60]}...): {str(bad)[:200]}")
     # the token shape the loader silently drops must not occur in data (T2 forbids it)
     o = _run_loader(ce, lfq, 6, "hs3")
     if o == []:
